@@ -375,7 +375,7 @@ CLAIMED = {
     "C11": ("Translator (the add/dbl templates instantiated for (ep2, fp2) regenerated on every run and checked by rfl to be the same terms as "
             "the (ep, fp) instantiation, so the formula theorems over an arbitrary field apply) + abstract-group multiplication theorems of C03 "
             "+ correspondence on both pairing-friendly curves of the configuration against the affine law over Fp2 built from the generic tower spec",
-            "Proved in Lean (Props/C11: 39 theorems; lemma modules Lemmas/Ep2Formulas, Lemmas/Ep2Mul): the generated ep2 add/dbl code (affine, "
+            "Proved in Lean (44 theorems audited over Props/C11 and the lemma modules Lemmas/Ep2Formulas, Lemmas/Ep2Mul): the generated ep2 add/dbl code (affine, "
             "homogeneous projective, Jacobian, mixed) is term-identical to the ep code, whose formulas are proved to be the chord-and-tangent law "
             "over any field of characteristic != 2 (exceptional cases stated). CLASS A (a Lean model mirroring the C loop, proved = k*Q resp. "
             "k*P + m*Q resp. sum k_i*P_i for every integer scalar in any commutative group killed by r, and executed by the driver on every "
@@ -389,13 +389,15 @@ CLAIMED = {
             "C03.mul_sim_lot_plain_correct over the 4n points + gls_sum_zsmul). Hypothesis of the GLS theorems: psi(Q) = [p mod r]Q, checked by "
             "the driver on the generator together with the four lattice columns (endo_is_scalar_on_cyclic carries it to every multiple). "
             "An additive endomorphism is determined on the cyclic group by its value on the generator; h*P and its multiples lie in the r-torsion "
-            "when h*r kills the twist. Tie: ~830 lines per quick run on the two BN curves of the configuration (thorough: also BLS12-381): "
+            "when h*r kills the twist. Tie: ~890 lines per quick run on the two BN curves of the configuration (thorough: also BLS12-381): "
             "generated ep2 formulas executed over the tower arithmetic vs implementation vs affine law; every ep2_mul_* / fix / sim / lot variant "
             "by name x every scalar class, Frobenius-structured scalars for one-, two- and many-point routines, identity base for every table "
             "form, sliding window at its buffer capacity; ep2_frb(Q,i) = [p^i]Q on subgroup points; cofactor map on twist points outside the "
             "subgroup; twist parameters reported by the library checked (qnr non-residue, G on twist, r*G = O, Hasse, psi(G) = [p mod r]G, "
-            "lattice columns). CLASS C (compared with the specification per line only): ep2_mul_lwreg (ep2_mul_reg_gls: bn_rec_sac recoding "
-            "not modelled), the bucket branch of ep2_mul_sim_lot (n > 10), bn_rec_frb for non-BN families (digits in base |x|: modelled and "
+            "lattice columns); op e2frb presents the bn_rec_frb decomposition itself (model recFrbBN; a different valid decomposition is "
+            "invisible in k*Q). Modelled and executed but NOT proved: the bucket branch of ep2_mul_sim_lot (n > 10, simLotBucket4). CLASS C "
+            "(compared with the specification per line only): ep2_mul_lwreg (ep2_mul_reg_gls: bn_rec_sac recoding not modelled), "
+            "bn_rec_frb for non-BN families (digits in base |x|: modelled and "
             "executed in the thorough tier, not proved), ep2_mul_cof, additivity of ep2_frb. ep3/ep4/ep8 (other field sizes) not covered.",
             "Trusted: Lean kernel; tools/translate.py; Spec/Tower.lean + Spec/CurveX.lean as the definition of Fp2 and of the group law; the "
             "harness chooses the twist type (D/M) under which psi(G) = [p]G because the library exposes no per-curve selector; known findings "
